@@ -1910,6 +1910,18 @@ impl Node {
 
     fn remove_children(&self, state: &State) {
         self.foreach_child(&mut |index, child| {
+            // Linking a node to its children can be interrupted by a panic (height limit, cycle, a
+            // user callback). Such a half-linked node is still torn down when its observers and the
+            // state are dropped: an edge that was never linked has nothing to unlink.
+            let linked = self
+                .parent_child_indices
+                .borrow()
+                .my_parent_index_in_child_at_index
+                .get(index as usize)
+                .map_or(false, |&parent_index| parent_index >= 0);
+            if !linked {
+                return;
+            }
             child.remove_parent(index, self.as_parent_dyn_ref());
             child.check_if_unnecessary(state);
         })
